@@ -288,6 +288,7 @@ func newSizePlan(g *grammar, thorough bool) *sizePlan {
 type sizeTask struct {
 	prio int
 	f    func(w *worker)
+	sub  int // order inside a priority class
 }
 
 func (sp *sizePlan) tasks() []func(w *worker) {
@@ -295,7 +296,12 @@ func (sp *sizePlan) tasks() []func(w *worker) {
 	ts = append(ts, sp.valueTasks()...)
 	ts = append(ts, sp.countTasks()...)
 	ts = append(ts, sp.layoutTasks()...)
-	sort.SliceStable(ts, func(i, j int) bool { return ts[i].prio < ts[j].prio })
+	sort.SliceStable(ts, func(i, j int) bool {
+		if ts[i].prio != ts[j].prio {
+			return ts[i].prio < ts[j].prio
+		}
+		return ts[i].sub < ts[j].sub
+	})
 	out := make([]func(w *worker), len(ts))
 	for i, t := range ts {
 		f, name := t.f, "size_task_ms_"+prioNames[t.prio]
@@ -316,13 +322,13 @@ const (
 	prioQuickLayout
 	prioQuickMiB
 	prioThoroughSmall
-	prioThorough64K
 	prioThoroughCount
 	prioThoroughLayout
+	prioThorough64K
 	prioThoroughMiB
 )
 
-var prioNames = []string{"quick_64k", "quick_count", "quick_layout", "quick_1mib", "thorough_small", "thorough_64k", "thorough_count", "thorough_layout", "thorough_1mib"}
+var prioNames = []string{"quick_64k", "quick_count", "quick_layout", "quick_1mib", "thorough_small", "thorough_count", "thorough_layout", "thorough_64k", "thorough_1mib"}
 
 // ---- (1) long values ----------------------------------------------------------------------------
 
@@ -368,7 +374,14 @@ func (sp *sizePlan) valueTasks() []sizeTask {
 						continue
 					}
 					prio := [2][3]int{{prioQuick64K, prioQuick64K, prioQuickMiB}, {prioThoroughSmall, prioThorough64K, prioThoroughMiB}}[pass][group]
-					out = append(out, sizeTask{prio, func(w *worker) { sp.runValueTask(w, po, ctx, own, group, pass) }})
+					sub := 1 // every position in the `full` contexts first, then the other contexts
+					if ctx.full {
+						sub = 0
+					}
+					if group == 2 && pass == 0 && own && len(po.ctxs) > 1 {
+						sub = 1 // quick 1 MiB class: the wrapper context before the bare one
+					}
+					out = append(out, sizeTask{prio, func(w *worker) { sp.runValueTask(w, po, ctx, own, group, pass) }, sub})
 				}
 			}
 		}
@@ -548,9 +561,9 @@ func (sp *sizePlan) countTasks() []sizeTask {
 	add := func(quick bool, f func(w *worker)) {
 		switch {
 		case quick:
-			out = append(out, sizeTask{prioQuickCount, f})
+			out = append(out, sizeTask{prio: prioQuickCount, f: f})
 		case sp.thorough:
-			out = append(out, sizeTask{prioThoroughCount, f})
+			out = append(out, sizeTask{prio: prioThoroughCount, f: f})
 		}
 	}
 	for _, s := range g.slots {
@@ -839,7 +852,7 @@ func (sp *sizePlan) layoutTasks() []sizeTask {
 			}
 			// quick: 65 536 / 65 537 at every boundary of the quick contexts, 1 MiB at the header and the end
 			if ctx.quick && ctx.big {
-				out = append(out, sizeTask{prioQuickLayout, func(w *worker) {
+				out = append(out, sizeTask{prio: prioQuickLayout, f: func(w *worker) {
 					run(w, lenClasses[5])
 					run(w, lenClasses[6])
 					if edge {
@@ -853,7 +866,7 @@ func (sp *sizePlan) layoutTasks() []sizeTask {
 			if !sp.thorough {
 				continue
 			}
-			out = append(out, sizeTask{prioThoroughLayout, func(w *worker) {
+			out = append(out, sizeTask{prio: prioThoroughLayout, f: func(w *worker) {
 				for _, lc := range lenClasses[:7] {
 					if ctx.quick && ctx.big && (lc.n == 65536 || lc.n == 65537) {
 						continue
@@ -868,7 +881,7 @@ func (sp *sizePlan) layoutTasks() []sizeTask {
 				}
 			}})
 			if !(ctx.quick && ctx.big && edge) {
-				out = append(out, sizeTask{prioThoroughMiB, func(w *worker) { run(w, lenClasses[7]) }})
+				out = append(out, sizeTask{prio: prioThoroughMiB, f: func(w *worker) { run(w, lenClasses[7]) }})
 			}
 		}
 	}
